@@ -124,7 +124,13 @@ static inline SCell make_cell(pbt::Ctx &c, int F, C base, bool allow_predef = tr
         s.kind = SCell::VECTOR;
         R dphi = 0.3L * (c.unit() - 0.5L);
         for (int f = 0; f < F; f++) s.v.push_back(base * polar(1, dphi * f));
-    } else { s.kind = SCell::SCALAR; s.v.assign(F, base); }
+    } else {
+        // scalar values whose real part falls within 0.03 of +1 / -1 get it EXACTLY (the imaginary part stays): a user
+        // value next to a predefined one (open / short) must still be a parameter of its own (no tape position added)
+        if (std::fabs(base.real() - 1) < 0.03L && std::fabs(base.imag()) > 1e-3L) base = C(1, base.imag());
+        else if (std::fabs(base.real() + 1) < 0.03L && std::fabs(base.imag()) > 1e-3L) base = C(-1, base.imag());
+        s.kind = SCell::SCALAR; s.v.assign(F, base);
+    }
     return s;
 }
 
@@ -363,7 +369,64 @@ static inline vm::Ident ident_with_unknowns(const Scenario &sc, int f) {
     return vm::identifiability(sc.box[f], S, usable_cells(sc), 1e5L, &extra);
 }
 
+// 16-term types: determinacy decided on the DOCUMENTED linear equations themselves (vnacal_layout.h):
+//   T16:  Ts S + Ti - M Tx S - M Tm = 0   one equation per measured row i and KNOWN S column j
+//   U16:  Um M + Ui - S Ux M - S Us = 0   one equation per KNOWN S row i and measured column j
+// A column (row) of S is known for every port the standard connects (its cells towards the ports the standard leaves
+// open are zero: no signal path); the block among the unconnected ports is unknown and not needed.  The equations use
+// whole rows (columns) of M, so a standard contributes only when its measurement matrix was supplied in full.
+// With exact data the set determines the error terms iff this system has full column rank; kappa = its 2-norm
+// condition number after fixing the unity term (Tm11 / Um11).  This counts the partial standards (reflects, throughs
+// on a subset of the ports) that the Jacobian test of the physical model has to leave out for these types.
+static inline vm::Ident ident16(const Scenario &sc, int f) {
+    vm::Ident id;
+    int r = sc.r, c = sc.c, P = sc.P; bool T = vm::is_T(sc.type);
+    // unknown index: four blocks; T: Ts r x P, Ti r x P, Tx c x P, Tm c x P;  U: Um P x r, Ui P x c, Ux P x r, Us P x c
+    int d0r = T ? r : P, d0c = T ? P : r, d1r = T ? r : P, d1c = T ? P : c, d2r = T ? c : P, d2c = T ? P : r, d3r = T ? c : P, d3c = T ? P : c;
+    int o1 = d0r * d0c, o2 = o1 + d1r * d1c, o3 = o2 + d2r * d2c, nall = o3 + d3r * d3c;
+    int unity = T ? o3 : 0;      // Tm11 resp. Um11
+    auto col = [&](int blk, int i, int j) { int k = blk == 0 ? i * d0c + j : blk == 1 ? o1 + i * d1c + j : blk == 2 ? o2 + i * d2c + j : o3 + i * d3c + j; if (k == unity) return -1; return k > unity ? k - 1 : k; };
+    int nu = nall - 1;
+    std::vector<std::vector<C>> rows; std::vector<C> rhs;
+    for (auto &st : sc.stds) {
+        if (st.abbrev_rows || st.abbrev_cols) { if ((int)st.ports.size() != P) continue; }
+        Mat M; if (!sc.box[f].measure(st.Sfull[f], M)) return id;
+        const Mat &S = st.Sfull[f];
+        if (T) {
+            for (int i = 0; i < r; i++) for (int j = 0; j < P; j++) if (st.connected(j)) {
+                std::vector<C> a(nu, C(0, 0)); C b(0, 0);
+                auto add = [&](int k, C v) { if (k < 0) b -= v; else a[k] += v; };
+                for (int k = 0; k < P; k++) if (st.connected(k) || k == j) add(col(0, i, k), S(k, j));        // Ts(i,k) S(k,j): S(k,j) = 0 for unconnected k
+                add(col(1, i, j), C(1, 0));
+                for (int k = 0; k < c; k++) for (int l = 0; l < P; l++) if (st.connected(l)) add(col(2, k, l), -M(i, k) * S(l, j));
+                for (int k = 0; k < c; k++) add(col(3, k, j), -M(i, k));
+                rows.push_back(a); rhs.push_back(b);
+            }
+        } else {
+            for (int i = 0; i < P; i++) if (st.connected(i)) for (int j = 0; j < c; j++) {
+                std::vector<C> a(nu, C(0, 0)); C b(0, 0);
+                auto add = [&](int k, C v) { if (k < 0) b -= v; else a[k] += v; };
+                for (int k = 0; k < r; k++) add(col(0, i, k), M(k, j));
+                add(col(1, i, j), C(1, 0));
+                for (int l = 0; l < P; l++) if (st.connected(l)) { for (int k = 0; k < r; k++) add(col(2, l, k), -S(i, l) * M(k, j)); add(col(3, l, j), -S(i, l)); }
+                rows.push_back(a); rhs.push_back(b);
+            }
+        }
+    }
+    id.nparams = nu; id.ncells = (int)rows.size(); id.rank_expected = nu;
+    if ((int)rows.size() < nu) return id;
+    Mat A((int)rows.size(), nu); for (size_t i = 0; i < rows.size(); i++) for (int k = 0; k < nu; k++) A((int)i, k) = rows[i][k];
+    // column scaling (the terms differ in magnitude by construction; the solver's accuracy follows the scaled conditioning)
+    for (int k = 0; k < nu; k++) { R n2 = 0; for (int i = 0; i < A.r; i++) n2 += std::norm(A(i, k)); if (n2 == 0) return id; R sc2 = 1 / std::sqrt(n2); for (int i = 0; i < A.r; i++) A(i, k) *= sc2; }
+    auto sv = vm::singular_values(A);
+    id.smax = sv.front(); id.smin = sv[nu - 1];
+    id.kappa = id.smin > 0 ? id.smax / id.smin : INFINITY;
+    id.determining = id.kappa < 1e5L;
+    return id;
+}
+
 static inline vm::Ident ident_at(const Scenario &sc, int f) {
+    if (vm::is_16(sc.type)) return ident16(sc, f);
     std::vector<Mat> S; for (auto &st : sc.stds) S.push_back(st.Sfull[f]);
     return vm::identifiability(sc.box[f], S, usable_cells(sc));
 }
